@@ -31,4 +31,45 @@ def sigNorm : Option Str → Str
   | none => []
   | some s => s
 
+/-! ### `notifyOnSignal`: which declaration a subscription refers to -/
+
+/-- A `DBusInterface` as `notifyOnSignal` sees it: its name and its `signals` dict (name -> declared
+signature, keys distinct). -/
+structure IfaceDecl where
+  name : Str
+  signals : List (Str × Str)
+  deriving DecidableEq, Repr
+
+/-- The loop at the head of `notifyOnSignal(signalName, callback, interface)`:
+`for i in self.interfaces: if interface and not i.name == interface: continue;
+ if signalName in i.signals: signal = i.signals[signalName]; iface = i; break`.
+`none` = `AttributeError` (no interface declares the signal). -/
+def selectSignal (signalName : Str) (interface : Option Str) : List IfaceDecl → Option (Str × Str)
+  | [] => none
+  | i :: rest =>
+    if strTruthy interface && !(some i.name == interface) then selectSignal signalName interface rest
+    else
+      match i.signals.lookup signalName with
+      | some sg => some (i.name, sg)
+      | none => selectSignal signalName interface rest
+
+/-- The keyword arguments of the `addMatch` call made by `notifyOnSignal`. -/
+def notifyRule (objectPath signalName ifaceName : Str) : RuleArgs :=
+  { mtype := some "signal".toList, path := some objectPath, member := some signalName, iface := some ifaceName }
+
+/-! ### `_signalRules` and `cancelSignalNotification` -/
+
+/-- `self._signalRules` (a set of rule ids; `None` before the first subscription = empty). -/
+structure ProxySubs where
+  rules : List Nat := []
+  deriving DecidableEq, Repr
+
+/-- `on_ok(rule_id)`: `self._signalRules.add(rule_id)`. -/
+def ProxySubs.onOk (p : ProxySubs) (id : Nat) : ProxySubs :=
+  if p.rules.contains id then p else { rules := id :: p.rules }
+
+/-- `cancelSignalNotification(rule_id)`: `some id` = `conn.delMatch(id)` is called. -/
+def ProxySubs.cancel (p : ProxySubs) (id : Nat) : ProxySubs × Option Nat :=
+  if p.rules.contains id then ({ rules := p.rules.filter (· ≠ id) }, some id) else (p, none)
+
 end Txdbus.Route
